@@ -45,41 +45,54 @@ class LiteralTypeHint(TypeHint):
     # ..................{ PRIVATE ~ testers                  }..................
     def _is_subhint(self, other: TypeHint) -> bool:
 
-        # If the passed hint is also a literal, return true only if the set of
-        # all child hints subscripting this literal is a subset of the set of
-        # all child hints subscripting that literal.
-        if isinstance(other, LiteralTypeHint):
-            return all(self_arg in other._args for self_arg in self._args)
-        # Else, the passed hint is *NOT* also a literal.
-
-        # Return true only if either...
-        return (
-            # The class of each child hint subscripting this literal is a
-            # subhint (e.g., subclass) of the passed hint *OR*...
-            #
-            # Note that, unlike most type hints, each child hints subscripting
-            # this literal is typically *NOT* a valid type hint in and of itself
-            # (e.g., "Literal[True]" is a valid type hint, but "True" is not).
-            # This test *CANNOT* be reduced to the simpler and sensible variant:
-            #     return all(
-            #         hint_child.is_subhint(other)
-            #         for hint_child in self._args_wrapped_tuple
-            #     )
-            all(
-                TypeHint(type(literal_child)).is_subhint(other)  # pyright: ignore
-                for literal_child in self._args
-            ) or
-            # Else, the class of one or more child hints subscripting this
-            # literal is *NOT* a subhint (e.g., subclass) of the passed hint.
-            #
-            # Defer to the superclass implementation of this method. Why?
-            # Because this literal could still be a subhint of passed hint
-            # according to standard typing semantics. Notably, this literal
-            # could be a child type hint and thus a subhint of the passed type
-            # hint - despite failing all of the above literal-specific subhint
-            # tests: e.g.,
-            #     # The call below handles this surprisingly common edge case.
-            #     >>> Literal[True] <= Union[Literal[True], Literal[False]]
-            #     True
-            super()._is_subhint(other)
+        # Return true only if *EACH* literal object subscripting this literal
+        # is permitted by one or more branches of the passed hint: e.g.,
+        #     Literal[1, 'a'] <= Union[Literal[1], str]
+        return all(
+            _is_literal_subhint(literal_child, other)
+            for literal_child in self._args
         )
+
+# ....................{ PRIVATE ~ testers                  }....................
+def _is_literal_subhint(literal: object, other: TypeHint) -> bool:
+    '''
+    :data:`True` only if the passed literal object is permitted by one or more
+    branches of the passed hint.
+
+    Parameters
+    ----------
+    literal : object
+        Literal object subscripting a :pep:`586`-compliant literal type hint.
+    other : TypeHint
+        Other type hint to be tested against this literal object.
+    '''
+
+    # Type hint wrapper encapsulating the class of this literal object.
+    literal_type_hint = TypeHint(type(literal))
+
+    # For each branch of that hint (e.g., each child of a union)...
+    for other_branch in other._branches:
+        # If that branch is also a literal, this literal object is permitted by
+        # that branch only if that branch is subscripted by an equal literal
+        # object of the same class. Note that equality alone does *NOT*
+        # suffice: e.g., "1 == True" but "Literal[1]" is *NOT* a subhint of
+        # "Literal[True]", which rejects the integer "1".
+        if isinstance(other_branch, LiteralTypeHint):
+            if any(
+                type(literal) is type(other_literal) and
+                literal == other_literal
+                for other_literal in other_branch._args
+            ):
+                return True
+        # Else, that branch is *NOT* a literal. In this case, this literal
+        # object is permitted by that branch only if the class of this literal
+        # object is a subhint (e.g., subclass) of that branch.
+        #
+        # Note that, unlike most type hints, the objects subscripting a literal
+        # are typically *NOT* valid type hints in and of themselves (e.g.,
+        # "Literal[True]" is a valid type hint, but "True" is not).
+        elif literal_type_hint.is_subhint(other_branch):
+            return True
+
+    # Else, *NO* branch of that hint permits this literal object.
+    return False
